@@ -78,7 +78,12 @@ fn operand(rng: &mut Rng, s: &str, decls: &mut String, name: &str) -> (String, &
     let cuts: Vec<usize> = s.char_indices().map(|(i, _)| i).chain([s.len()]).collect();
     let cut = *rng.pick(&cuts);
     let (a, b) = s.split_at(cut);
-    match rng.below(5) {
+    match rng.below(6) {
+        5 => {
+            // a string materialised by a channel read
+            decls.push_str(&format!("    let {name} = via(pipe, heap({}, {}))\n", lit(a), lit(b)));
+            (name.to_string(), "read-from-channel")
+        }
         0 => (lit(s), "literal"),
         1 => {
             decls.push_str(&format!("    let {name} = {}\n", lit(s)));
@@ -113,7 +118,8 @@ pub fn generate(rng: &mut Rng, max_len: usize, max_cases: usize, allow_task: boo
     let with_task = allow_task && rng.chance(1, 3);
     let mut src = String::from("use simhost\n\n");
     src.push_str("fn heap(a: string, b: string) -> string { a .. b }\n");
-    src.push_str("fn tmp(a: string, b: string) -> array<string> { [\"x\", a .. b] }\n\n");
+    src.push_str("fn tmp(a: string, b: string) -> array<string> { [\"x\", a .. b] }\n");
+    src.push_str("fn via(pipe: channel<string>, s: string) -> string {\n    pipe.write(s)\n    pipe.read()\n}\n\n");
     let mut expected: Vec<(i64, String)> = vec![];
     let mut descr = vec![];
     for i in 0..n_cases {
@@ -143,21 +149,23 @@ pub fn generate(rng: &mut Rng, max_len: usize, max_cases: usize, allow_task: boo
         want.push_str(&s1);
         want.push_str(&s2);
         want.push('|');
-        src.push_str(&format!("fn case_{i}() -> string {{\n{decls}    \"\" .. {} .. \"|\" .. ({x} .. {y}) .. \"|\"\n}}\n", parts.join(" .. ")));
+        src.push_str(&format!("fn case_{i}(pipe: channel<string>) -> string {{\n{decls}    \"\" .. {} .. \"|\" .. ({x} .. {y}) .. \"|\"\n}}\n", parts.join(" .. ")));
         expected.push((i as i64, want));
         descr.push(format!("{category}({},{})", s1.len(), s2.len()));
     }
     src.push('\n');
+    src.push_str("let pipe_m: channel<string> = channel()\n");
     if with_task {
+        src.push_str("let pipe_t: channel<string> = channel()\n");
         // odd cases run in a second task, concurrently with main's even cases
         src.push_str("let res: channel<string> = channel()\n");
         src.push_str("task {\n");
         for i in (0..n_cases).filter(|i| i % 2 == 1) {
-            src.push_str(&format!("    res.write(case_{i}())\n"));
+            src.push_str(&format!("    res.write(case_{i}(pipe_t))\n"));
         }
         src.push_str("}\n");
         for i in (0..n_cases).filter(|i| i % 2 == 0) {
-            src.push_str(&format!("obs({i}, case_{i}())\n"));
+            src.push_str(&format!("obs({i}, case_{i}(pipe_m))\n"));
         }
         for i in (0..n_cases).filter(|i| i % 2 == 1) {
             src.push_str(&format!("obs({i}, res.read())\n"));
@@ -168,7 +176,7 @@ pub fn generate(rng: &mut Rng, max_len: usize, max_cases: usize, allow_task: boo
         expected = reordered;
     } else {
         for i in 0..n_cases {
-            src.push_str(&format!("obs({i}, case_{i}())\n"));
+            src.push_str(&format!("obs({i}, case_{i}(pipe_m))\n"));
         }
     }
     src.push_str(&format!("{n_cases}\n"));
